@@ -1,0 +1,27 @@
+//go:build verif
+
+package sm2
+
+import "math/big"
+
+// Exports for the verification harness.
+
+func VerifEnsure32Bytes(i *big.Int) []byte { return ensure32Bytes(i) }
+
+// VerifPackageState serialises the package-level values every call shares
+// (used to show that concurrent and repeated calls leave them untouched).
+func VerifPackageState() []byte {
+	var out []byte
+	out = append(out, one.Bytes()...)
+	out = append(out, 0xff)
+	out = append(out, n.Bytes()...)
+	out = append(out, 0xff)
+	out = append(out, nBytes...)
+	out = append(out, 0xff)
+	out = append(out, nMinus1.Bytes()...)
+	out = append(out, 0xff)
+	out = append(out, nMinus1Bytes...)
+	out = append(out, 0xff)
+	out = append(out, zBytes...)
+	return out
+}
